@@ -7,6 +7,13 @@ use crate::delta::lexer::tokens::Tokens;
 use crate::delta::parser::parse_node::{self, NodeId, ParseNode, U24};
 use crate::delta::parser::parse_tree::MAX_PARSE_NODE_CONTEXT;
 
+/// Remove the opening and closing quote of a string literal's source.
+fn strip_quotes(source: &str) -> &str
+{
+	let source = source.strip_prefix('"').unwrap_or(source);
+	source.strip_suffix('"').unwrap_or(source)
+}
+
 impl ParseTree
 {
 	pub fn as_xml(
@@ -363,7 +370,7 @@ fn print_xml(
 
 		(SimpleStringLiteral { literal }, _) => Box::new(once(format!(
 			"<SimpleStringLiteral src={:?} />",
-			get_source(literal).trim_matches('"')
+			strip_quotes(get_source(literal))
 		))),
 
 		(CompositeStringLiteral { start }, [_, _, _, _, EndOfSpan { end }]) =>
